@@ -32,7 +32,7 @@ import simlib as S
 
 PID = "C06"
 DRIVER = Path(__file__).resolve().parent / "c06_impl.py"
-TARGETS = ["Sim/Case.vo", "Sim/ReinitProofs.vo", "Props/C06.vo"]
+TARGETS = ["Sim/Case.vo", "Sim/ReinitProofs.vo", "Sim/ReproProofs.vo", "Streams/Stream.vo", "Props/C06.vo"]
 KIND_OF_SID = ["tally", "persistent", "counter"]
 HIST_KINDS = ["never", "stepped", "bounded", "ended", "fault", "stop", "endrepl", "cleanup", "othermodel", "multi"]
 COMPONENTS = ["trace", "outs", "ntfs", "obs", "canc", "dlv", "draws"]
@@ -475,6 +475,212 @@ def coq_view(case, obs):
     return out[-6000:]
 
 
+# ----------------------------------------------------------------------------- composed model (Sim/Repro.v)
+STREAM_IX = {"a": 0, "b": 1, "c": 2}
+TWO53 = 1 << 53
+
+
+def c_yaction(a):
+    k = a[0]
+    if k == "sched" and a[1][0] == "reld":
+        m = a[1]
+        return f"YSchedD {C.cnat(STREAM_IX[m[1]])} {C.cz(m[2])} {C.cz(m[3])} {C.cz(m[4])} {C.cz(a[2])} {C.cnat(a[3])}"
+    if k == "obsd":
+        return f"YObsD {C.cnat(a[1])} {C.cnat(STREAM_IX[a[2]])} {C.cz(a[3])} {C.cz(a[4])}"
+    if k == "obsf":
+        return f"YObsF {C.cnat(a[1])} {C.cnat(STREAM_IX[a[2]])}"
+    if k == "fire":
+        return f"YFire {C.cnat(a[1])}"
+    if k == "sub":
+        return f"YSub {C.cnat(a[1])} {C.cnat(a[2])}"
+    if k == "unsub":
+        return f"YUnsub {C.cnat(a[1])} {C.cnat(a[2])}"
+    return f"YA ({S.c_action(a)})"
+
+
+def raw_outputs(seed, n):
+    """the raw outputs k (u = k / 2^53) of random.Random(seed): CPython's generator is trusted (C12)"""
+    r = random.Random(seed)
+    return [int(r.random() * TWO53) for _ in range(n)]
+
+
+def c_ymodel(m, ndraws):
+    prog = C.clist(C.clist(c_yaction(a) for a in body) for body in m["prog"])
+    lst = C.clist(C.clist(c_yaction(a) for a in body) for body in m.get("lst", []))
+    subs = C.clist(f"({C.cnat(et)}, {C.cnat(l)})" for et, l in m.get("subs", []))
+    stats = C.clist(f"({C.cnat(k)}, {SK[kind]}, {C.cnat(sid)})" for k, kind, sid in m.get("stats", []))
+    tabs = [[] for _ in range(3)]
+    for nm, seed in m.get("streams", []):
+        tabs[STREAM_IX[nm]] = raw_outputs(seed, ndraws.get(nm, 0) + 2)
+    streams = C.clist(C.clist(C.cz(k) for k in t) for t in tabs)
+    return f"(mkYModel {prog} {lst} {subs} {stats} {streams})"
+
+
+def conv_val(v):
+    """observation values: ints stay, float draws u = k / 2^53 become k, integral floats become ints"""
+    if isinstance(v, str):
+        f = float.fromhex(v)
+        if f == int(f) and (abs(f) >= 1 or f == 0):
+            return int(f)
+        k = f * TWO53
+        if k != int(k):
+            raise ValueError(v)
+        return int(k)
+    return int(v)
+
+
+def c_yfed(sid, fed):
+    out = []
+    for e in fed:
+        if e[0] == "v":
+            out.append(f"ObsV {C.cnat(sid)} {C.cz(conv_val(e[1]))} {C.cz(e[2])}")
+        elif e[0] == "warm":
+            out.append(f"ObsWarm {C.cz(e[1])}")
+        else:
+            out.append(f"ObsEnd {C.cz(e[1])}")
+    return C.clist(out)
+
+
+def c_yexpect(obs):
+    snaps = C.clist(f"mkSnap {'ResOk' if s[0] == 'ok' else 'ResRefused'} {S.RS[s[1]]} {S.PS[s[2]]} {C.cz(s[3])} {C.cnat(s[4])}"
+                    for s in obs["snaps"])
+    trace = C.clist(f"({C.cnat(k)}, {C.cz(t)})" for k, t in obs["trace"])
+    outs = C.clist({"acc": "OAccepted", "ref": "ORefused", "cmdok": "OCmdOk", "cmdref": "OCmdRefused"}[o]
+                   for o in obs["outs"])
+    ntfs = C.clist(("NStarting" if nm == "starting" else "NStopping" if nm == "stopping" else f"{S.NTF[nm]} {C.cz(t)}")
+                   for nm, t in obs["ntfs"])
+    ob = C.clist(f"ObsV {C.cnat(s)} {C.cz(conv_val(v))} {C.cz(t)}" for s, v, t in obs["obs"])
+    canc = C.clist(C.cnat(k) for k in obs.get("canc", []))
+    return f"(mkExpect {snaps} {trace} {outs} {ntfs} {ob} {canc} {C.cbool(obs['alive'])})"
+
+
+def draw_counts(case, obs):
+    """per model: stream -> the largest number of draws in one replication"""
+    res = [dict() for _ in case["models"]]
+    marks = obs.get("marks") or []
+    for j, mk in enumerate(marks):
+        c = case["cmds"][mk["cmd"]]
+        mi = c[4] if len(c) > 4 else 0
+        hi = marks[j + 1]["draws"] if j + 1 < len(marks) else len(obs["draws"])
+        cnt = {}
+        for d in obs["draws"][mk["draws"]:hi]:
+            cnt[d[0]] = cnt.get(d[0], 0) + 1
+        for nm, n in cnt.items():
+            res[mi][nm] = max(res[mi].get(nm, 0), n)
+    return res
+
+
+def c_ycase(case, obs, mnames):
+    """mnames[i]: Coq name of model i"""
+    hist = []
+    cur = 0
+    for c in case["cmds"]:
+        if c[0] == "init":
+            cur = c[4] if len(c) > 4 else 0
+        hist.append(f"({mnames[cur]}, {S.c_cmd(c[:4] if c[0] == 'init' else c)})")
+    dl = C.clist(f"mkDlv {C.cnat(et)} {C.cnat(l)} {C.cnat(ser)} {C.cz(t)}" for et, l, ser, t in obs["dlv"])
+    # the raw output behind every draw, in order: streams restart at every accepted initialize
+    drw = []
+    marks = obs.get("marks") or []
+    for j, mk in enumerate(marks):
+        c = case["cmds"][mk["cmd"]]
+        mi = c[4] if len(c) > 4 else 0
+        seeds = dict((nm, sd) for nm, sd in case["models"][mi].get("streams", []))
+        hi = marks[j + 1]["draws"] if j + 1 < len(marks) else len(obs["draws"])
+        seg = obs["draws"][mk["draws"]:hi]
+        tabs = {nm: raw_outputs(sd, sum(1 for d in seg if d[0] == nm) + 1) for nm, sd in seeds.items()}
+        pos = {nm: 0 for nm in seeds}
+        for nm, kind, v in seg:
+            drw.append(f"({C.cnat(STREAM_IX[nm])}, {C.cz(tabs[nm][pos[nm]])})")
+            pos[nm] += 1
+    rep = []
+    last_mi = None
+    for ci, c in enumerate(case["cmds"]):
+        if c[0] == "init" and obs["snaps"][ci][0] == "ok":
+            last_mi = c[4] if len(c) > 4 else 0
+    if isinstance(obs.get("reported"), list) and last_mi is not None:
+        sid_of = {f"st{k}": (k, kind, sid) for k, kind, sid in case["models"][last_mi]["stats"]}
+        for x in obs["reported"]:
+            k, kind, sid = sid_of[x["key"]]
+            rep.append(f"({C.cnat(k)}, {SK[x['kind'] or kind]}, {c_yfed(sid, x['fed'])})")
+    return f"(mkYCase {S.STRAT[case['strategy']]} {C.clist(hist)} {c_yexpect(obs)} {dl} {C.clist(drw)} {C.clist(rep)})"
+
+
+YPRELUDE = ["From Coq Require Import ZArith List.",
+            "From PV Require Import Sim.Model Sim.Case Sim.Reinit Sim.Repro.",
+            "From PV Require Streams.Stream.",
+            "Import ListNotations.",
+            "Definition nint (lo hi k : Z) : Z := match PV.Streams.Stream.next_int_fixed lo hi k with "
+            "PV.Streams.Stream.OInt z => z | _ => lo end."]
+
+
+def y_repr(case, obs):
+    why = S.representable(obs)
+    if why:
+        return why
+    if case.get("stop_at"):
+        return "stop_at"
+    if not isinstance(obs.get("reported"), (list, type(None))):
+        return "reported"
+    for m in case["models"]:
+        for body in m["prog"] + m.get("lst", []):
+            for a in body:
+                if a[0] == "cmd" and a[1][0] == "init" and len(a[1]) > 4 and a[1][4] != 0:
+                    return "inner init of another model"
+    return None
+
+
+def ycoq_compare(pid, items, shard=60):
+    """items: list of (case, obs); returns (codes, error): 0 agree, 1 disagree, 2 outside the model, 3 not representable"""
+    d = C.scratch_dir(pid + "y")
+    codes = [3] * len(items)
+    texts = {}
+    for i, (c, o) in enumerate(items):
+        try:
+            if y_repr(c, o) is None:
+                nd = draw_counts(c, o)
+                defs = [c_ymodel(m, nd[mi]) for mi, m in enumerate(c["models"])]
+                lets = " ".join(f"let m{mi} := {t} in" for mi, t in enumerate(defs))
+                texts[i] = f"({lets} {c_ycase(c, o, ['m%d' % mi for mi in range(len(defs))])})"
+        except (ValueError, KeyError):
+            pass
+    idxs = sorted(texts)
+    groups = [idxs[s:s + shard] for s in range(0, len(idxs), shard)]
+    files = []
+    for g, grp in enumerate(groups):
+        f = d / f"cases_{pid.lower()}y_{g}.v"
+        lines = list(YPRELUDE) + ["Definition cases : list ycase := [", ";\n".join(texts[i] for i in grp), "].",
+                                  "Eval vm_compute in (ycodes_from nint 0 1 cases).",
+                                  "Eval vm_compute in (ycodes_from nint 0 2 cases)."]
+        f.write_text("\n".join(lines) + "\n")
+        files.append(f)
+    results = C.coqc_many(files)
+    for g, (rc, out) in enumerate(results):
+        lists = C.parse_nat_lists(out)
+        if rc != 0 or len(lists) != 2:
+            return codes, f"coqc failed on {files[g]}: {out[-800:]}"
+        for i in groups[g]:
+            codes[i] = 0
+        for jx in lists[0]:
+            codes[groups[g][jx]] = 1
+        for jx in lists[1]:
+            codes[groups[g][jx]] = 2
+    return codes, None
+
+
+def ycoq_view(pid, case, obs):
+    d = C.SCRATCH / (pid + "_view")
+    d.mkdir(parents=True, exist_ok=True)
+    f = d / "yview.v"
+    nd = draw_counts(case, obs)
+    defs = "\n".join(f"Definition m{mi} : ymodel := {c_ymodel(m, nd[mi])}." for mi, m in enumerate(case["models"]))
+    f.write_text("\n".join(YPRELUDE) + "\n" + defs + "\n"
+                 f"Definition c : ycase := {c_ycase(case, obs, ['m%d' % mi for mi in range(len(case['models']))])}.\n"
+                 "Eval vm_compute in (ycase_parts nint c).\nEval vm_compute in (ycase_view nint c).\n")
+    rc, out = C.coqc_file(f)
+    return out[-6000:]
+
+
 # ----------------------------------------------------------------------------- shrinking
 def shrink(case, pred, budget=60):
     cur = copy.deepcopy(case)
@@ -541,18 +747,18 @@ def main(tier: str) -> int:
         "pending set modelled at specification level (sorted list); the heap-backed list is covered by C01's refinement theorem and by this correspondence",
         "times are exact dyadic numbers (quarters); float rounding of clock arithmetic is not modelled",
         "worker thread executed synchronously (commands observed at quiescence); CPython threading trusted",
-        "random streams are outside Sim/Model.v: runs with draws are compared implementation (re-initialised) against implementation (brand-new) only",
+        "random streams are outside Sim/Model.v: runs with draws are evaluated on the composed model Sim/Repro.v (streams = raw outputs of random.Random(seed) computed by the harness; CPython's generator trusted, next_int = C12's Streams.Stream.next_int_fixed) and compared implementation (re-initialised) against implementation (brand-new)",
         "statistics getters are compared bit for bit between the two implementation runs; the model predicts what each statistic object is fed (recorded by subclasses of SimCounter/SimTally/SimPersistent that log every notify before delegating)",
     ])
     rng = random.Random(run.seed * 130003 + 6)
-    n = 520 if tier == "quick" else 6000
+    n = 520 if tier == "quick" else 16000
     cases = []
     corpus = C.VERIF / "corpus" / f"{PID}.json"
     if corpus.exists():
         cases += json.loads(corpus.read_text())
     ncorp = len(cases)
     cases += [gen_case(rng, i) for i in range(n)]
-    cases += malformed_cases(rng, 24 if tier == "quick" else 200)
+    cases += malformed_cases(rng, 24 if tier == "quick" else 400)
     try:
         obs = run_impl(cases)
     except Exception as exc:  # noqa
@@ -602,14 +808,27 @@ def main(tier: str) -> int:
                                            "how": "feed [case] as JSON list to harness/c06_impl.py with PYTHONPATH=/repo/src"})
 
     codes, err = coq_compare(cases, obs)
-    if err:
-        run.violation("correspondence-not-evaluable", err, {}, found_input=False)
+    ycodes, yerr = ([], None) if err else ycoq_compare(PID, list(zip(cases, obs)))
+    if err or yerr:
+        run.violation("correspondence-not-evaluable", err or yerr, {}, found_input=False)
         return run.finish()
     n_dis = sum(1 for x in codes if x == 1)
-    run.cov["traces_validated_against_impl"] = sum(1 for x in codes if x == 0)
-    run.cov["model_impl_mismatches"] = n_dis
-    run.cov["cases_outside_model"] = sum(1 for x in codes if x == 2)
-    run.cov["cases_compared_impl_vs_impl_only"] = sum(1 for x in codes if x == 3)
+    n_ydis = sum(1 for x in ycodes if x == 1)
+    run.cov["traces_validated_against_impl"] = sum(1 for x, y in zip(codes, ycodes) if x == 0 or y == 0)
+    run.cov["validated_on_Sim_Reinit_xcase"] = sum(1 for x in codes if x == 0)
+    run.cov["validated_on_Sim_Repro_ycase"] = sum(1 for x in ycodes if x == 0)
+    run.cov["model_impl_mismatches"] = n_dis + n_ydis
+    run.cov["cases_outside_model"] = sum(1 for x, y in zip(codes, ycodes) if x == 2 or y == 2)
+    run.cov["cases_compared_impl_vs_impl_only"] = sum(1 for x, y in zip(codes, ycodes) if x >= 2 and y >= 2)
+    if n_ydis and not n_dis and not bads:
+        i = ycodes.index(1)
+        view = ycoq_view(PID, cases[i], obs[i])
+        run.violation("model-impl-disagree",
+                      "correspondence Sim.Repro.ycase_code (composed model) no longer matches the implementation but no clause "
+                      "of the property was found violated by the oracle",
+                      {"case": cases[i], "impl_observation": {k: obs[i].get(k) for k in ("snaps", "trace", "ntfs", "outs", "obs", "canc", "dlv", "draws", "reported")},
+                       "model_view": view, "relation": "Sim.Repro.ycase_code"},
+                      found_input=False)
     if n_dis and not bads:
         i = codes.index(1)
         view = coq_view(cases[i], obs[i])
@@ -623,6 +842,24 @@ def main(tier: str) -> int:
         run.violation("proof-broken", f"a {PID} proof obligation no longer checks: " + getattr(run, "proof_log", "")[-800:],
                       {"theorems": run.cov.get("theorems")}, found_input=False)
     return run.finish()
+
+
+def replay(path: str) -> int:
+    """./check C06 --replay <file>: re-run the recorded failing input on the implementation (re-initialised and
+    brand-new) and judge it with the model-independent oracle."""
+    body = json.loads(Path(path).read_text())
+    case = body.get("case")
+    if not case or "models" not in case:
+        print(f"nothing replayable in {path} (no concrete input was found for this violation: {body.get('what', '')[:200]})")
+        return 1 if body.get("property") == PID else 2
+    obs = run_impl([case], nproc=1)[0]
+    bad, _ = oracle(case, obs)
+    if bad:
+        print(f"VIOLATION property={PID} replay={path}")
+        print(f"  {bad[0]}: {bad[1]}")
+        return 1
+    print(f"replay passes on this tree: property={PID} input={json.dumps(case)[:300]}")
+    return 0
 
 
 if __name__ == "__main__":
